@@ -390,6 +390,10 @@ var exception_catch(var args) {
   
   if (not e->active) { return NULL; }
   
+  /* The pending exception is consumed here. If it is not handled by
+  ** this block it is raised again below, which marks it pending again. */
+  e->active = false;
+  
   /* If no Arguments catch all */
   if (len(args) is 0) {
     return e->obj;
